@@ -221,3 +221,130 @@ Theorem writer_conforms :
   decode zd (close w) = Ok (reassembled k L).
 Proof. exact AgcV3_compose.writer_conforms_proof. Qed.
 Print Assumptions writer_conforms.
+
+(* ======================================================================== non-vacuity
+   zstd hypotheses are satisfiable (toy codec: prefix the level byte); with it a two-sample archive written by the model
+   writers - LZ group 16 (reference + one delta, stored reverse-complemented, with an IUPAC code), raw group 3
+   (placeholder + one entry), catalogue of one batch, streams registered and buffered in the order ragc uses, flushed
+   and closed - meets EVERY hypothesis of writer_conforms, and the decoder (plain and strict) returns the input *)
+Definition zc1 (l : N) (x : list N) : list N := l :: x.
+Definition zd1 (d : list N) : option (list N) := Some (tl d).
+Definition ex_ref : list N := [0;1;2;3;0;1;2;3;3;2;1;0;0;0;1;1;2;2;3;3].
+Definition sA : seg_in := {| s_sample := [83;48]; s_contig := [99;48]; s_part := 0; s_data := ex_ref; s_rc := false |}.
+Definition sB : seg_in := {| s_sample := [83;49]; s_contig := [99;48]; s_part := 0; s_data := ex_ref ++ [1;5;2]; s_rc := true |}.
+Definition sC : seg_in := {| s_sample := [83;49]; s_contig := [99;48]; s_part := 1; s_data := [2;2;1;0]; s_rc := false |}.
+Definition ex_gops : list op := [(16, [sB; sA]); (3, [sC])].
+Definition ex_st : store :=
+  match run (m_lz_enc 5) (m_cref zc1) (m_cpack zc1 17) ex_gops with Ok st => st | _ => store_empty end.
+Definition ex_L : layout :=
+  [ ([83;48], [ ([99;48], [mkPlaced sA 16 0]) ]);
+    ([83;49], [ ([99;48], [mkPlaced sB 16 1; mkPlaced sC 3 1]) ]) ].
+Definition ex_c : coll := mkColl (samples_of ex_L) [] 60 3 0 0.
+Definition ex_a : arch := match store_all zc1 50 ex_c arch_empty with Ok (_, a) => a | _ => arch_empty end.
+Definition ex_fin : store := finalize (m_cpack zc1 17) ex_st.
+Definition parts_ops (sid : N) (l : list Container.item) : list wop := map (fun it => WAddBuf sid (fst it) (snd it)) l.
+Definition opt_parts (o : option (list SegReader.part)) : list Container.item :=
+  match o with Some l => map unswap l | None => [] end.
+Definition ex_wops : list wop :=
+  [WRegister SPEC_NAME_SAMPLES; WRegister SPEC_NAME_CONTIGS; WRegister SPEC_NAME_DETAILS; WRegister SPEC_NAME_FILE_TYPE_INFO;
+   WRegister SPEC_NAME_PARAMS; WRegister SPEC_NAME_SPLITTERS; WRegister SPEC_NAME_SEGMENT_SPLITTERS;
+   WRegister (stream_delta_name 16); WRegister (stream_ref_name 16); WRegister (stream_delta_name 3); WRegister (stream_ref_name 3)]
+  ++ parts_ops 7 (opt_parts (gv_delta (view_of ex_fin 16))) ++ parts_ops 8 (opt_parts (gv_ref (view_of ex_fin 16)))
+  ++ parts_ops 9 (opt_parts (gv_delta (view_of ex_fin 3))) ++ parts_ops 10 (opt_parts (gv_ref (view_of ex_fin 3)))
+  ++ [WAddBuf 4 (encode_params 3 5 60) 0; WAddBuf 5 [] 0; WAddBuf 6 [] 0]
+  ++ parts_ops 0 (a_samples ex_a) ++ parts_ops 1 (a_contigs ex_a) ++ parts_ops 2 (a_details ex_a)
+  ++ [WAddBuf 3 [112; 0; 114; 0] 7; WFlush].
+Definition ex_file : list N := close (fst (wrun w_init ex_wops)).
+
+
+Ltac solve_wf :=
+  repeat match goal with
+         | |- Forall _ [] => constructor
+         | |- Forall _ (_ :: _) => constructor
+         | |- _ /\ _ => split
+         | |- True => exact I
+         | |- wop_wf _ => cbn [wop_wf]; unfold name_wf
+         | |- _ <= _ => (vm_compute; discriminate)
+         | |- _ < _ => (vm_compute; reflexivity)
+         | |- sym_ok _ => (vm_compute; reflexivity)
+         | |- _ <> [] => discriminate
+         | |- _ => progress (cbv beta; cbn [sname scontigs cname fst snd])
+         end.
+
+Example writer_conforms_nonvacuous :
+  (forall l x, zd1 (zc1 l x) = Some x) /\ (forall l x, zc1 l x <> []) /\
+  run (m_lz_enc 5) (m_cref zc1) (m_cpack zc1 17) ex_gops = Ok ex_st /\
+  GroupStore_proofs.ops_ok ref_dom (lz_dom 5) ex_gops /\
+  samples ex_c = samples_of ex_L /\
+  Forall (fun s => Forall (fun b => 1 <= b < 128) (sname s)) (samples ex_c) /\
+  Forall (Collection_proofs.batch_ok zc1 60 3)
+         (Collection_proofs.chunks (length (samples ex_c)) (N.to_nat SPEC_CATALOGUE_BATCH) (samples ex_c)) /\
+  (exists cw, store_all zc1 SPEC_CATALOGUE_BATCH ex_c arch_empty = Ok (cw, ex_a)) /\
+  (forall p, placed_in ex_L p -> In (pl_seg p, pl_id p) (regs_of ex_st (pl_group p))) /\
+  (forall sm ct, In sm ex_L -> In ct (snd sm) -> Forall (fun p => 3 <= lenN (s_data (pl_seg p))) (tl (snd ct))) /\
+  Forall wop_wf ex_wops /\ lenN ex_file <= spec_max_off /\
+  sp_parts (fst (sp_run sp_init ex_wops)) SPEC_NAME_PARAMS = Some [(encode_params 3 5 60, SPEC_PARAMS_METADATA)] /\
+  sp_parts (fst (sp_run sp_init ex_wops)) SPEC_NAME_SAMPLES = Some (a_samples ex_a) /\
+  sp_parts (fst (sp_run sp_init ex_wops)) SPEC_NAME_CONTIGS = Some (a_contigs ex_a) /\
+  sp_parts (fst (sp_run sp_init ex_wops)) SPEC_NAME_DETAILS = Some (a_details ex_a) /\
+  (forall p, placed_in ex_L p ->
+     sp_parts (fst (sp_run sp_init ex_wops)) (stream_ref_name (pl_group p)) =
+       option_map (map unswap) (gv_ref (view_of ex_fin (pl_group p))) /\
+     sp_parts (fst (sp_run sp_init ex_wops)) (stream_delta_name (pl_group p)) =
+       option_map (map unswap) (gv_delta (view_of ex_fin (pl_group p)))) /\
+  (* and the conclusion, computed: reference stored tuple-packed, delta pack and raw pack stored raw, placeholder,
+     a reverse-complemented segment with an IUPAC code, a k-overlap *)
+  decode zd1 ex_file = Ok (reassembled 3 ex_L) /\ decode_strict zd1 ex_file = SOk (reassembled 3 ex_L) /\
+  reassembled 3 ex_L =
+    [([83; 48], [([99; 48], ex_ref)]);
+     ([83; 49], [([99; 48], [1; 5; 2; 0; 0; 1; 1; 2; 2; 3; 3; 3; 2; 1; 0; 0; 1; 2; 3; 0; 1; 2; 3; 0])])] /\
+  view_of ex_fin 16 = {| gv_ref := Some [(20, [13; 27; 27; 228; 5; 175; 0; 64; 1])];
+                         gv_delta := Some [(0, [48; 44; 49; 53; 46; 66; 70; 67; 255])] |} /\
+  view_of ex_fin 3 = {| gv_ref := Some []; gv_delta := Some [(0, [127; 255; 2; 2; 1; 0; 255])] |}.
+Proof.
+  assert (Hplaced : forall (P : placed -> Prop), P (mkPlaced sA 16 0) -> P (mkPlaced sB 16 1) -> P (mkPlaced sC 3 1) ->
+                    forall p, placed_in ex_L p -> P p).
+  { intros P PA PB PC p [sm [ct [H1 [H2 H3]]]].
+    cbn in H1. destruct H1 as [<-|[<-|[]]]; cbn in H2; destruct H2 as [<-|[]]; cbn in H3.
+    - destruct H3 as [<-|[]]. exact PA.
+    - destruct H3 as [<-|[<-|[]]]; assumption. }
+  split; [reflexivity|]. split; [discriminate|].
+  split. { unfold ex_st. destruct (run _ _ _ ex_gops) eqn:E; [reflexivity| |]; vm_compute in E; discriminate. }
+  split. { apply ops_okb_ok. vm_compute. reflexivity. }
+  split; [reflexivity|].
+  split. { unfold ex_c, samples_of, ex_L. cbn [samples map fst snd sname]. solve_wf. }
+  split. { apply (Collection_proofs.forallb_Forall (Collection_proofs.batch_okb zc1 60 3));
+           [apply Collection_proofs.batch_okb_ok | vm_compute; reflexivity]. }
+  split. { unfold ex_a. destruct (store_all zc1 50 ex_c arch_empty) as [[cw a]| |] eqn:E;
+           [exists cw; exact E | |]; vm_compute in E; discriminate. }
+  split. { apply Hplaced; vm_compute; auto. }
+  split. { intros sm ct H1 H2. cbn in H1. destruct H1 as [<-|[<-|[]]]; cbn in H2; destruct H2 as [<-|[]]; cbn [snd tl]; solve_wf. }
+  split. { let v := eval vm_compute in ex_wops in change ex_wops with v. solve_wf. }
+  split; [vm_compute; discriminate|].
+  split; [vm_compute; reflexivity|]. split; [vm_compute; reflexivity|]. split; [vm_compute; reflexivity|].
+  split; [vm_compute; reflexivity|].
+  split. { apply Hplaced; split; vm_compute; reflexivity. }
+  vm_compute. repeat split; reflexivity.
+Qed.
+
+(* params: the three on-disk lengths; the reader's default segment size for the 12-byte form *)
+Example params_nonvacuous :
+  encode_params 21 20 60000 = [21;0;0;0; 20;0;0;0; 50;0;0;0; 96;234;0;0] /\
+  decode_params (encode_params 21 20 60000) = Ok (mkParams 21 20 50 60000 None 16) /\
+  decode_params [21;0;0;0; 20;0;0;0; 50;0;0;0] = Ok (mkParams 21 20 50 60000 None 12) /\
+  decode_params (encode_params 21 20 1000 ++ [16;0;0;0]) = Ok (mkParams 21 20 50 1000 (Some 16) 20) /\
+  decode_params [21;0;0;0] = Err.
+Proof. vm_compute. repeat split; reflexivity. Qed.
+
+(* the strict mode names the rule that is broken (same archive, one byte of a part changed) *)
+Definition break_part (sid : N) (f : list N -> list N) (ops : list wop) : list wop :=
+  map (fun o => match o with WAddBuf i d m => if i =? sid then WAddBuf i (f d) m else o | _ => o end) ops.
+Example strict_codes_nonvacuous :
+  decode_strict zd1 (close (fst (wrun w_init (break_part 9 (fun d => 126 :: tl d) ex_wops)))) = SErr E_PLACEHOLDER /\
+  decode_strict zd1 (close (fst (wrun w_init (break_part 9 (fun d => removelast d) ex_wops)))) = SErr E_PACK_LAYOUT /\
+  decode_strict zd1 (close (fst (wrun w_init (break_part 8 (fun d => d ++ [0]) ex_wops)))) = SErr E_METADATA /\
+  decode_strict zd1 (close (fst (wrun w_init (break_part 4 (fun d => firstn 8 d ++ [64] ++ skipn 9 d) ex_wops)))) = SErr E_PARAMS /\
+  decode_strict zd1 (close (fst (wrun w_init (break_part 7 (fun d => [255]) ex_wops)))) = SErr E_DESC_LEN /\
+  decode_strict zd1 (close (fst (wrun w_init (break_part 9 (fun d => [127; 255]) ex_wops)))) = SErr E_ID /\
+  decode_strict zd1 (firstn 300 ex_file) = SErr E_CONTAINER.
+Proof. vm_compute. repeat split; reflexivity. Qed.
